@@ -123,6 +123,7 @@ type xferDir struct {
 	readPause int           // pause after this many reads (0 = never)
 	pauseFor  time.Duration // length of the pause
 	setRecvParams bool      // receiver mirrors the reliability params on its stream object
+	deadlines     bool      // the reader arms read deadlines before some reads
 	flip          []bool    // the writer toggles ordered/unordered before write i (mixed ordering on one stream)
 	shortReads    bool      // the reader sometimes offers a buffer that is too small first
 	recvUnordered int       // directed scenarios: 1 = receiver configures its stream object unordered, 2 = ordered
@@ -322,6 +323,44 @@ func (x *xfer) gotStream(ep *endpoint, sid uint16, s *Stream) *simStream {
 				time.Sleep(d.pauseFor)
 				vsimWoke(h)
 			}
+			if d != nil && d.deadlines && w.wtape.intn(2) == 0 {
+				// a read under a deadline (C18): it returns the deadline error at the deadline, not
+				// earlier, and nothing is lost or duplicated by it
+				dd := time.Duration(pick(w.wtape, 0, 1, 5, 50, 200, 1000, 10000)) * time.Millisecond
+				deadline := time.Now().Add(dd)
+				_ = st.s.SetReadDeadline(deadline)
+				dl := w.now() + dd
+				r := w.read(st, buf, x.index)
+				if r.err != nil && errors.Is(r.err, ErrReadDeadlineExceeded) {
+					w.probe("read-deadline-expired")
+					if r.at < dl {
+						w.violate("C18", "deadline-early", "%s stream %d: read returned the deadline error at %v, before its deadline %v", ep.name, sid, r.at, dl)
+					}
+					if dd > 0 && r.at > dl+time.Millisecond {
+						w.violate("C18", "deadline-late", "%s stream %d: read blocked until %v although its deadline was %v", ep.name, sid, r.at, dl)
+					}
+					// clear or re-arm, then go on reading
+					if w.wtape.intn(2) == 0 {
+						_ = st.s.SetReadDeadline(time.Time{})
+					} else {
+						_ = st.s.SetReadDeadline(time.Now().Add(time.Duration(1+w.wtape.intn(2000)) * time.Millisecond))
+					}
+					continue
+				}
+				if r.err != nil {
+					st.readErr = r.err
+					st.readerDone = true
+					return
+				}
+				if w.wtape.intn(2) == 0 {
+					_ = st.s.SetReadDeadline(time.Time{})
+				}
+				nread++
+				if x.onRead != nil {
+					x.onRead(d, r)
+				}
+				continue
+			}
 			if d != nil && d.shortReads && w.wtape.intn(3) == 0 {
 				// a read into a buffer that may be too small: must report io.ErrShortBuffer and keep the
 				// message (C18); the byte accounting must not move (C11)
@@ -349,6 +388,12 @@ func (x *xfer) gotStream(ep *endpoint, sid uint16, s *Stream) *simStream {
 					}
 					continue
 				}
+				if rs.err != nil && d.deadlines && errors.Is(rs.err, ErrReadDeadlineExceeded) {
+					// a deadline armed earlier expired: not the end of the stream
+					w.probe("read-deadline-expired")
+					_ = st.s.SetReadDeadline(time.Time{})
+					continue
+				}
 				if rs.err != nil {
 					st.readErr = rs.err
 					st.readerDone = true
@@ -361,6 +406,12 @@ func (x *xfer) gotStream(ep *endpoint, sid uint16, s *Stream) *simStream {
 				continue
 			}
 			r := w.read(st, buf, x.index)
+			if r.err != nil && d != nil && d.deadlines && errors.Is(r.err, ErrReadDeadlineExceeded) {
+				// a deadline armed earlier expired during this read
+				w.probe("read-deadline-expired")
+				_ = st.s.SetReadDeadline(time.Time{})
+				continue
+			}
 			if r.err != nil {
 				st.readErr = r.err
 				st.readerDone = true
@@ -513,6 +564,7 @@ func genDirs(w *world, o xferOpts) []*xferDir {
 				d.readDelay = time.Duration(1+tp.intn(50)) * time.Millisecond
 			}
 			d.shortReads = tp.intn(3) == 0
+			d.deadlines = o.deadlines && tp.intn(2) == 0
 			if !o.reliableOrderedOnly && tp.intn(3) == 0 && (w.params["kf_recv_unordered"] != 0 || (w.cfg.Side[0].Interleaving && w.cfg.Side[1].Interleaving)) {
 				// ordered and unordered messages share the stream (only with interleaving on both
 				// sides: in DATA mode this is the trigger region of known finding KF4)
@@ -574,6 +626,7 @@ type xferOpts struct {
 	noTimed             bool
 	dcep                bool
 	slowReaders         bool
+	deadlines           bool
 }
 
 // rtoMaxOf returns the configured RTO.max of an endpoint as a duration (the
